@@ -160,3 +160,15 @@ package py
 //@   ensures prop: lasterr[0] != nil ==> err == lasterr[0] && r == nil
 //@   loop 1 (i)
 //@     invariant nolast: lasterr[0] == nil
+
+// ---- py/generator.go (C05): the generator state machine ----
+
+//@ func (*Generator).Send(it, arg) (r, err)
+//@   requires nn: it.Frame != nil && arg != nil
+//@   protects it
+//@   modifies *
+//@   ensures running: old(it.Running) ==> raisesExc(err, ValueError) && it.Frame.Lasti == old(it.Frame.Lasti) && it.Frame.Yielded == old(it.Frame.Yielded) && it.Frame.Stack == old(it.Frame.Stack)
+//@   ensures exhausted: !old(it.Running) && old(it.Frame.Lasti) != 0 && !old(it.Frame.Yielded) ==> is(err, *Type) && err.(*Type) == StopIteration && r == nil && !it.Frame.Yielded && it.Frame.Stack == old(it.Frame.Stack)
+//@   ensures idle: !old(it.Running) ==> !it.Running
+//@   ensures errdone: !old(it.Running) && err != nil && !(old(it.Frame.Lasti) == 0 && !isNone(arg)) ==> !it.Frame.Yielded
+//@   ensures value: err == nil ==> it.Frame.Yielded
